@@ -106,8 +106,10 @@ theorem C15_lin (h : THdr) (pid : Nat) (data : Bytes) (cks : Nat) (hdt : h.dt = 
   · rw [h4]; simp; omega
   · rw [h6]; simp; omega
 
-/-! capture-module status: serial number u32 @8, sw version @13..15, hw version @16..17 -/
-theorem C15_cm (h : THdr) (pay : Bytes) (hmt : h.mt = 1) (hlen : 18 ≤ pay.length) (hacc : Accepts h pay) :
+/-! capture-module status: vendor data length u16 @4 (the vendor data starts behind the 12 generic bytes and must lie inside
+    the payload), serial number u32 @8, sw version @13..15, hw version @16..17 -/
+theorem C15_cm (h : THdr) (pay : Bytes) (hmt : h.mt = 1) (hlen : 18 ≤ pay.length) (hvd : beAt pay 4 2 ≤ pay.length - 12)
+    (hacc : Accepts h pay) :
     ∃ p, tecmpDecode (h.bytes ++ pay) = [p] ∧ FromHdr h p ∧ p.ifId = h.ifId ∧
       p.payload = some ⟨tyCm, cmSetData cmDefault []
         (decimal (beAt pay 8 4))
@@ -126,13 +128,13 @@ theorem C15_cm (h : THdr) (pay : Bytes) (hmt : h.mt = 1) (hlen : 18 ≤ pay.leng
         []⟩, version := 1, deviceId := h.dev, ts := h.ts, ifId := h.ifId }, ?_, ?_, rfl, rfl⟩
   · rw [decode_accept h.bytes _ hf hmt255 hdt' hp1 hp2, hmt, if_pos rfl]
     unfold tecmpCm
-    rw [if_neg (by omega)]
+    rw [if_neg (by omega), if_neg (by omega)]
     dsimp only
     rw [packet_hdr _ _ hf, ifId_hdr _ _ hf]
   · exact ⟨rfl, rfl, rfl, rfl, rfl, rfl, rfl, rfl⟩
 
-/-! bus status: 12 generic bytes, then 12-byte entries (interface id u32, messages total u32,
-    errors total u32): one interface-status packet per complete entry -/
+/-! bus status: 12 generic bytes (vendor data length `v`: u16 @4), then entries of `12 + v` bytes (interface id u32,
+    messages total u32, errors total u32, `v` bytes of vendor data): one interface-status packet per complete entry -/
 structure BusEntry where
   ifId : Nat
   msgs : Nat
@@ -147,12 +149,20 @@ def busPacket (h : THdr) (e : BusEntry) : Packet :=
   { payload := some ⟨tyIf, writeAt (writeAt (writeAt ifDefault 0 (beEnc 4 e.ifId)) 4 (beEnc 4 e.msgs)) 20 (beEnc 4 e.errs)⟩,
     version := 1, deviceId := h.dev, ts := h.ts, ifId := e.ifId }
 
-theorem C15_bus (h : THdr) (generic : Bytes) (es : List BusEntry) (trail : Bytes) (hmt : h.mt = 2)
-    (hg : generic.length = 12) (hes : ∀ e ∈ es, e.WF) (ht : trail.length < 12)
-    (hacc : Accepts h (generic ++ es.flatMap BusEntry.bytes ++ trail)) :
-    tecmpDecode (h.bytes ++ (generic ++ es.flatMap BusEntry.bytes ++ trail)) = es.map (busPacket h) := by
-  have hfm : es.flatMap BusEntry.bytes =
-      (es.map fun e => (e.ifId, e.msgs, e.errs)).flatMap entryBytes := by
+/-- a bus-status entry on the wire: the 12 counter bytes followed by its vendor data -/
+def vendorEntry (e : BusEntry) (vendor : Bytes) : Bytes := e.bytes ++ vendor
+
+/-- bus status, EVERY declared vendor data length `v`: `es.length` entries, each the 12 counter bytes followed by `v` vendor
+    bytes (any content), then fewer than `12 + v` trailing bytes (nothing, or an incomplete entry): exactly one packet per
+    entry, in order, interface id and counters from the entry's first 12 bytes -/
+theorem C15_bus (h : THdr) (generic : Bytes) (v : Nat) (es : List (BusEntry × Bytes)) (trail : Bytes) (hmt : h.mt = 2)
+    (hg : generic.length = 12) (hv : beAt generic 4 2 = v) (hes : ∀ e ∈ es, e.1.WF ∧ e.2.length = v)
+    (ht : trail.length < 12 + v)
+    (hacc : Accepts h (generic ++ es.flatMap (fun e => vendorEntry e.1 e.2) ++ trail)) :
+    tecmpDecode (h.bytes ++ (generic ++ es.flatMap (fun e => vendorEntry e.1 e.2) ++ trail)) =
+      es.map (fun e => busPacket h e.1) := by
+  have hfm : es.flatMap (fun e => vendorEntry e.1 e.2) =
+      (es.map fun e => ((e.1.ifId, e.1.msgs, e.1.errs), e.2)).flatMap ventryBytes := by
     rw [List.flatMap_map]; rfl
   rw [hfm] at hacc ⊢
   obtain ⟨hwf, hmt255, hdt', hp1, hp2⟩ := hacc
@@ -161,7 +171,7 @@ theorem C15_bus (h : THdr) (generic : Bytes) (es : List BusEntry) (trail : Bytes
     hdrBytes_facts h.dev h.counter h.version h.mt h.dt h.reserved h.devFlags h.ifId h.ts h.plen h.dataFlags
       hdev hmtlt hdtlt hif hts hpl
   rw [decode_accept h.bytes _ hf hmt255 hdt' hp1 hp2, hmt, if_neg (by decide), if_neg (by decide), if_pos rfl,
-    bus_conv _ generic trail _ hg ht, List.map_map]
+    bus_conv _ generic trail v _ hg hv ht, List.map_map]
   · apply List.map_congr_left
     intro e _
     simp only [Function.comp, packet_hdr _ _ hf, busPacket, busObj]
@@ -215,21 +225,32 @@ theorem C15_misfit_lin (b : Bytes) (hmt : byteAt b 5 = 3) (hdt : beAt b 6 2 = 4)
     dsimp only
     rw [hmt, hlin]
     simp [hdt]
-theorem C15_misfit_cm (b : Bytes) (hmt : byteAt b 5 = 1) (h : b.length < 28 + 18) : tecmpDecode b = [] := by
+theorem beAt_drop (b : Bytes) (k off w : Nat) : beAt (b.drop k) off w = beAt b (k + off) w := by
+  unfold beAt slice
+  rw [List.drop_drop]
+
+/-- capture-module status: fewer than 18 payload bytes, or a declared vendor data length (u16 @4 of the payload = @32 of the
+    buffer) exceeding the bytes behind the 12 generic bytes (buffer length − 40) -/
+theorem C15_misfit_cm (b : Bytes) (hmt : byteAt b 5 = 1) (h : b.length < 28 + 18 ∨ b.length - 40 < beAt b 32 2) :
+    tecmpDecode b = [] := by
   have hcm : tecmpCm b (b.drop 28) = [] := by
     unfold tecmpCm
-    rw [if_pos (by simp; omega)]
+    by_cases h18 : (b.drop 28).length < 18
+    · rw [if_pos h18]
+    · rw [if_neg h18, if_pos (by rw [beAt_drop]; simp at h18 ⊢; omega)]
   unfold tecmpDecode
   dsimp only
   rw [hmt, hcm]
   simp
-theorem C15_misfit_bus (b : Bytes) (hmt : byteAt b 5 = 2) (h : b.length < 28 + 24) : tecmpDecode b = [] := by
+/-- bus status: not even one complete entry (12 generic bytes, 12 counter bytes and the declared vendor data: u16 @4 of the
+    payload = @32 of the buffer) -/
+theorem C15_misfit_bus (b : Bytes) (hmt : byteAt b 5 = 2) (h : b.length < 28 + 24 + beAt b 32 2) : tecmpDecode b = [] := by
   have hbus : tecmpBus b (b.drop 28) = [] := by
     unfold tecmpBus
     split
     · rfl
     · unfold tecmpBusEntries
-      rw [if_neg (by simp; omega)]
+      rw [if_neg (by rw [beAt_drop]; simp; omega)]
   unfold tecmpDecode
   dsimp only
   rw [hmt, hbus]
